@@ -34,8 +34,8 @@ def close(a, b, exact):
 # shared ABF
 # ==========================================================================================
 
-def gen_abf(r, cid):
-    n = r.choice([2, 2, 3, 3, 4])
+def gen_abf(r, cid, big=False):
+    n = r.choice([2, 2, 3, 3, 4, 5, 6] if big else [2, 2, 3, 3, 4])
     nd = r.choice([1, 1, 2, 2, 3])
     nbins = [r.randint(2, 4 if nd < 3 else 3) for _ in range(nd)]
     F = r.choice([1, 2, 2, 3, 4])
@@ -322,8 +322,8 @@ def check_abf(run, exe, model, cases, scratch):
 # file-based multiple-walker metadynamics, walkers sharing files directly
 # ==========================================================================================
 
-def gen_meta(r, cid):
-    n = r.choice([2, 2, 3, 3, 4])
+def gen_meta(r, cid, big=False):
+    n = r.choice([2, 2, 3, 3, 4, 5, 6] if big else [2, 2, 3, 3, 4])
     hillfreq = r.choice([1, 1, 2])
     upfreq = r.choice([1, 2, 2, 3])
     lock = r.random() < 0.5
@@ -878,8 +878,8 @@ def check_view(run, exe, model, cases, scratch, fixflags="1 1"):
 # shared eABF: CZAR gather
 # ==========================================================================================
 
-def gen_czar(r, cid):
-    n = r.choice([2, 3, 4])
+def gen_czar(r, cid, big=False):
+    n = r.choice([2, 3, 4, 5, 6] if big else [2, 3, 4])
     nb = r.randint(3, 5)
     T = r.randint(4, 9)
     steps = [[(r.randint(0, nb - 1), r.choice([0.5, 0.25, 0.75]), V.dyadic(r, -4, 4)) for _ in range(n)] for _ in range(T)]
@@ -974,12 +974,16 @@ def check_czar(run, exe, model, cases, scratch):
 # OPES with multiple walkers
 # ==========================================================================================
 
-def gen_opes(r, cid):
-    n = r.choice([2, 3, 4])
+def gen_opes(r, cid, big=False):
+    n = r.choice([2, 3, 4, 5, 6] if big else [2, 3, 4])
     pace = r.choice([1, 2, 3])
     T = r.randint(3, 9)
     steps = [[V.dyadic(r, -8, 8, bits=4) for _ in range(n)] for _ in range(T)]
-    return {"kind": "opes", "id": cid, "n": n, "pace": pace, "steps": steps}
+    variant = r.choice(["plain", "plain", "compress", "nlist", "adaptive"])
+    if variant != "plain":
+        # close positions, so that kernels are merged / neighbour lists differ / the adaptive width matters
+        steps = [[V.dyadic(r, -1, 1, bits=4) for _ in range(n)] for _ in range(T + 4)]
+    return {"kind": "opes", "id": cid, "n": n, "pace": pace, "variant": variant, "steps": steps}
 
 
 def check_opes(run, exe, model, cases, scratch):
@@ -1006,17 +1010,22 @@ def check_opes(run, exe, model, cases, scratch):
                 run.violation("opes:walkers-differ", "at step %d the walkers hold different kernel lists: %s" %
                               (t, [[k[1] for k in d["kernels"]] for d in dumps]), {"kind": "opes", "case": c, "step": t})
                 break
-            exp = [x for rd in rounds for x in rd]
-            got = [V.hexf(float.fromhex(k[1])) for k in dumps[0]["kernels"]]
-            if got != exp:
-                run.violation("opes:kernels-not-the-contributions", "at step %d the kernel centres are %s, the walkers were fed %s at the deposition steps (rank order)"
-                              % (t, got, exp), {"kind": "opes", "case": c, "step": t})
-                break
             # the normalisation: bit-identical on all walkers (sum of weights, of squared weights, neff, rct, zed, kernel norm, counter)
             norm = [tuple(d.get(x) for x in ("sumw", "sumw2", "neff", "rct", "zed", "kdenorm", "counter")) for d in dumps]
             if any(x != norm[0] for x in norm[1:]):
                 run.violation("opes:normalisation-differs", "at step %d the walkers hold different normalisations (sumw, sumw2, neff, rct, zed, kdenorm, counter): %s"
                               % (t, norm), {"kind": "opes", "case": c, "step": t})
+                break
+            run.dist("opes:%s" % c.get("variant", "plain")) if t == 0 else None
+            if c.get("variant", "plain") != "plain":
+                # kernel compression, neighbour lists, adaptive width: what every walker holds is a function of the same
+                # gathered data, so it must still be the same bit for bit (checked above); the rest needs the plain kernels
+                continue
+            exp = [x for rd in rounds for x in rd]
+            got = [V.hexf(float.fromhex(k[1])) for k in dumps[0]["kernels"]]
+            if got != exp:
+                run.violation("opes:kernels-not-the-contributions", "at step %d the kernel centres are %s, the walkers were fed %s at the deposition steps (rank order)"
+                              % (t, got, exp), {"kind": "opes", "case": c, "step": t})
                 break
             if t == 0:
                 base = dumps[0]
@@ -1136,12 +1145,13 @@ def check(run):
         check_rewrite_order(run, exe, scratch)
         run_cases(run, exe, model, load_corpus(), scratch)
         na, nm, nv, nr = (60, 45, 30, 12) if quick else (1500, 1200, 800, 300)
-        cases = [gen_abf(r, "a%d" % i) for i in range(na)]
-        cases += [gen_meta(r, "m%d" % i) for i in range(nm)]
+        big = not quick      # more than four walkers: thorough tier only
+        cases = [gen_abf(r, "a%d" % i, big) for i in range(na)]
+        cases += [gen_meta(r, "m%d" % i, big) for i in range(nm)]
         cases += [gen_view(r, "v%d" % i) for i in range(nv)]
         cases += [gen_view(r, "x%d" % i, robust=True) for i in range(nr)]
-        cases += [gen_czar(r, "z%d" % i) for i in range(8 if quick else 150)]
-        cases += [gen_opes(r, "o%d" % i) for i in range(8 if quick else 150)]
+        cases += [gen_czar(r, "z%d" % i, big) for i in range(8 if quick else 150)]
+        cases += [gen_opes(r, "o%d" % i, big) for i in range(8 if quick else 150)]
         run_cases(run, exe, model, cases, scratch)
     finally:
         leftover = V.sh(["pgrep", "-f", exe])[1].split()
